@@ -37,6 +37,7 @@ type Solver struct {
 	argv    []string
 	dead    bool
 	nmark   int
+	stack   []*Term // assertions currently on the solver's push stack (one level each)
 }
 
 func NewSolver(c *Ctx, timeout time.Duration, argv ...string) (*Solver, error) {
@@ -68,10 +69,12 @@ func (s *Solver) start() error {
 	s.out = bufio.NewReaderSize(out, 1<<20)
 	s.p = NewPrinter(s.c)
 	s.dead = false
+	s.stack = nil
+	s.send("(set-option :global-declarations true)\n")
 	if strings.Contains(s.argv[0], "z3") {
 		s.send(fmt.Sprintf("(set-option :timeout %d)\n", s.timeout.Milliseconds()))
 	} else {
-		s.send("(set-logic ALL)\n")
+		s.send("(set-option :produce-models true)\n(set-logic ALL)\n")
 	}
 	return nil
 }
@@ -238,4 +241,102 @@ func parseVal(s string) uint64 {
 		return v
 	}
 	return 0
+}
+
+// CheckPC decides pc ∧ extra, keeping the solver's assertion stack aligned with pc
+// (one push level per pc term) so that consecutive queries on a growing path condition
+// only send what is new.
+func (s *Solver) CheckPC(pc []*Term, extra *Term, wantModel bool) (Verdict, map[string]uint64, string) {
+	if s.dead {
+		s.restart()
+	}
+	t0 := time.Now()
+	s.Queries++
+	defer func() { s.Time += time.Since(t0) }()
+	// common prefix
+	k := 0
+	for k < len(pc) && k < len(s.stack) && pc[k] == s.stack[k] {
+		k++
+	}
+	var sb strings.Builder
+	if n := len(s.stack) - k; n > 0 {
+		fmt.Fprintf(&sb, "(pop %d)\n", n)
+	}
+	s.stack = s.stack[:k]
+	for _, t := range pc[k:] {
+		r := s.p.Define(&sb, t)
+		fmt.Fprintf(&sb, "(push 1)\n(assert %s)\n", r)
+		s.stack = append(s.stack, t)
+	}
+	r := s.p.Define(&sb, extra)
+	fmt.Fprintf(&sb, "(push 1)\n(assert %s)\n(check-sat)\n", r)
+	lines, ok := s.roundtrip(sb.String())
+	if !ok {
+		return Unknown, nil, "solver died or watchdog timeout"
+	}
+	verdict := Unknown
+	reason := ""
+	for _, l := range lines {
+		switch {
+		case l == "sat":
+			verdict = Sat
+		case l == "unsat":
+			verdict = Unsat
+		case l == "unknown":
+			verdict = Unknown
+			reason = "unknown"
+		case strings.HasPrefix(l, "(error"):
+			s.Errors = append(s.Errors, l)
+			reason = l
+		}
+	}
+	if strings.HasPrefix(reason, "(error") {
+		verdict = Unknown
+		s.dead = true // resynchronise from scratch
+		return verdict, nil, reason
+	}
+	var model map[string]uint64
+	if verdict == Sat && wantModel {
+		model = map[string]uint64{}
+		all := append(append([]*Term(nil), pc...), extra)
+		vars := CollectVars(all...)
+		for i := 0; i < len(vars); i += 200 {
+			j := i + 200
+			if j > len(vars) {
+				j = len(vars)
+			}
+			var q strings.Builder
+			q.WriteString("(get-value (")
+			for _, v := range vars[i:j] {
+				q.WriteString(SymName(v.Name))
+				q.WriteByte(' ')
+			}
+			q.WriteString("))\n")
+			ls, ok := s.roundtrip(q.String())
+			if !ok {
+				return Unknown, nil, "solver died in get-value"
+			}
+			txt := strings.Join(ls, " ")
+			if strings.Contains(txt, "(error") {
+				s.Errors = append(s.Errors, txt)
+				s.dead = true
+				return Unknown, nil, txt
+			}
+			for _, m := range valRe.FindAllStringSubmatch(txt, -1) {
+				model[strings.Trim(m[1], "|")] = parseVal(m[2])
+			}
+		}
+	}
+	ls, ok := s.roundtrip("(pop 1)\n")
+	if !ok {
+		return Unknown, nil, "solver died at pop"
+	}
+	for _, l := range ls {
+		if strings.HasPrefix(l, "(error") {
+			s.Errors = append(s.Errors, l)
+			s.dead = true
+			return Unknown, nil, l
+		}
+	}
+	return verdict, model, reason
 }
